@@ -1234,8 +1234,11 @@ class Unit:
             _, loops = find_loops(split_fn(text)[1])
             if loops:
                 raise
+            # `hinted`: the contract carried proof hints that could not be placed; a failure of the bare attempt may then
+            # only mean that the solver lacks those hints, so it is reported as undecided, never as a violation
+            hinted = any(not (a[0] == 'fn_start' and 'let ghost' not in a[2]) for a in c.ats)
             if not any(f.get('fallback') == site for f in self.fallbacks):
-                self.fallbacks.append({'fallback': site, 'reason': str(e)})
+                self.fallbacks.append({'fallback': site, 'reason': str(e), 'hinted': hinted})
             return splice_fn(text, c2, site, extra_ensures=extra_ensures, rename=rename), line0
 
     def build(self):
